@@ -1,10 +1,12 @@
 #!/bin/bash
-# tools/sweep.sh <tier> <seed...>  : run every claimed check for the given seeds (no evidence), print one line each
+# tools/sweep.sh <tier> <seed...>  : run every claimed check for the given seeds, print one line each
+# (no evidence files are written unless SWEEP_EVIDENCE=1)
 tier=$1; shift
 cd /verif
 for s in "$@"; do
   for p in C01 C02 C03 C04 C05 C06 C07 C08 C09 C10 C11 C12 C13 C14 C15 C16 C17 C18 C19 C20; do
-    out=$(VERIF_SEED=$s ./check $p --tier $tier --no-evidence 2>&1); rc=$?
+    ev="--no-evidence"; [ "$SWEEP_EVIDENCE" = "1" ] && ev=""
+    out=$(VERIF_SEED=$s ./check $p --tier $tier $ev 2>&1); rc=$?
     echo "seed=$s $p rc=$rc $(echo "$out" | grep -E "^\[$p\] tier" | sed 's/.*status=//' | cut -c1-120) $(echo "$out" | grep -E "VIOLATION|INCONCLUSIVE|shortfall" | head -2 | tr '\n' ' ' | cut -c1-300)"
   done
 done
